@@ -58,7 +58,12 @@ def ob(name, which):
         return _res('refuted' if bad else 'discharged', ('in-place write to the caller\'s syndrome: %s' % bad) if bad else 'no write to param:syndrome on any path', r,
                     model=dict(decoder=name, lines=[b[0] for b in bad]) if bad else None)
     if which == 'frame.cache':
-        bad = sorted({(w[0], w[1], w[2]) for w in r.writes if w[0].startswith('cache:') or w[0].startswith('field:code') or w[0].startswith('field:error_model')})
+        bad = sorted({(w[0], w[1], w[2]) for w in r.writes if w[0].startswith('cache:') or w[0].startswith('field:code')})
+        # writes into the noise-model OBJECT itself (e.g. a per-instance memo of its tables being filled): whether a table already handed out is altered cannot be
+        # decided by the frame rule -> undecided here; the bounded clause compares the tables byte-wise before and after every decode
+        model_state = sorted({(w[0], w[1], w[2]) for w in r.writes if w[0].startswith('field:error_model')})
+        if model_state and not bad:
+            raise Unsupported('decode writes into the noise-model object (%s): outside the frame rule' % model_state[:3])
         return _res('refuted' if bad else 'discharged', ('in-place write to a cached table: %s' % bad) if bad else 'no write to cached tables / code / error model on any path', r,
                     model=dict(decoder=name, writes=bad) if bad else None)
     if which == 'state':
@@ -98,9 +103,11 @@ def ob(name, which):
                     rbw.append('%s.%s (line %d) can run with channel probabilities left by an earlier decode (conditioned on that decode\'s syndrome): '
                                'no update_channel_probs precedes it on every path%s' % (obj, m, ln, (' when ' + ', '.join('%s is %s' % kv for kv in forced.items())) if forced else ''))
         rbw = sorted(set(rbw))[:4]
-        problems = (['syndrome-dependent value stored in field %s (line %d, %s)' % b for b in bad] + ['in-place write into %s (line %d)' % w for w in fw] + rbw)
-        if other and not problems:
-            raise Unsupported('decode assigns field(s) %s of the decoder (not syndrome-dependent): history independence is outside the frame rule' % other)
+        problems = (['syndrome-dependent value stored in field %s (line %d, %s)' % b for b in bad] + rbw)
+        # a field of the decoder assigned, or an object held in one of its fields modified in place (a memo being filled, a block of pre-drawn random numbers):
+        # whether the correction can then depend on the call history is outside the frame rule -> undecided, the reused-vs-fresh run-time contract decides
+        if (other or fw) and not problems:
+            raise Unsupported('decode assigns field(s) %s / modifies in place %s of the decoder: history independence is outside the frame rule' % (other, [w[0] for w in fw][:4]))
         return _res('refuted' if problems else 'discharged', '; '.join(problems) or 'no syndrome-dependent state stored; third-party channel state overwritten before use', r,
                     model=dict(decoder=name, problems=problems) if problems else None)
     if which == 'extstate':
@@ -126,7 +133,12 @@ def ob_noise(fname):
          'get_weights': BEM.methods['get_weights'], 'error_probability': BEM.methods['error_probability']}[fname]
     ef = Effects(class_cfg=class_cfg(), nullness={'rng': False})
     r = ef.analyse(f, self_cls=PEM)
-    bad = sorted({(w[0], w[1], w[2]) for w in r.writes if w[0].startswith(('cache:', 'param:', 'field:'))})
+    bad = sorted({(w[0], w[1], w[2]) for w in r.writes if w[0].startswith(('cache:', 'param:'))})
+    own = sorted({(w[0], w[1], w[2]) for w in r.writes if w[0].startswith(('field:', 'self'))})
+    if own and not bad:
+        # the model fills / updates a container of its own (e.g. a per-instance memo of its tables): whether a table already handed out is altered is outside the
+        # frame rule -> undecided, the bounded clause compares the tables byte-wise
+        raise Unsupported('%s writes into the model object itself (%s): outside the frame rule' % (fname, own[:3]))
     return _res('refuted' if bad else 'discharged', ('in-place write: %s' % bad) if bad else 'no write to cached tables, arguments or fields', r,
                 model=dict(function=fname, writes=bad) if bad else None)
 
